@@ -277,4 +277,104 @@ theorem contains_reverse (c : Contour α) (pt : Point α) :
   rw [e2, ← hdd, edges_rotate, (List.rotate_perm _ _).countP_eq]
 
 end Field
+/-- the loop of the guarded branch of `extent` returns the FIRST of the candidates `size, next size, next (next size), …`
+    (at most `n` steps) that puts `hi` below `lo + candidate`, and the last candidate if none does -/
+theorem widenLoop_spec {α : Type} [Add α] [Sub α] [LT α] [DecidableLT α] (next : α → α) (lo hi : α) (n : Nat) (size : α) :
+    ∃ k, k ≤ n ∧ widenLoop next lo hi n size = Nat.iterate next k size ∧
+      (∀ j, j < k → ¬ hi < lo + Nat.iterate next j size) ∧ (k < n → hi < lo + Nat.iterate next k size) := by
+  induction n generalizing size with
+  | zero => exact ⟨0, Nat.le_refl _, rfl, fun j hj => absurd hj (Nat.not_lt_zero _), fun h => absurd h (Nat.lt_irrefl _)⟩
+  | succ n ih =>
+    by_cases h : hi < lo + size
+    · refine ⟨0, Nat.zero_le _, ?_, fun j hj => absurd hj (Nat.not_lt_zero _), fun _ => h⟩
+      simp [widenLoop, h]
+    · obtain ⟨k, hk, e, hfirst, hlast⟩ := ih (next size)
+      refine ⟨k + 1, Nat.succ_le_succ hk, ?_, ?_, ?_⟩
+      · simp only [widenLoop, h, decide_false, Bool.not_false, if_true]; exact e
+      · intro j hj
+        cases j with
+        | zero => exact h
+        | succ j => exact hfirst j (Nat.lt_of_succ_lt_succ hj)
+      · intro hlt; exact hlast (Nat.lt_of_succ_lt_succ hlt)
+
+
+/-! ### Unfoldings (NOT counted as property theorems)
+
+These four statements only unfold the model's definitions (`Polygon.transform` IS a nested `List.map`,
+`Polygon.containsEvenOdd` IS a `countP … % 2`); they say nothing that could fail about the Go code, whose `Transform` is
+`Clone()` followed by an in-place loop and whose `ContainsEvenOdd` is a counting loop.  The link of those loops to the model
+is the correspondence stream (`poly ptransform / pevenodd / pcontains / pclone` lines), not a theorem.  They are kept as
+helper lemmas for `C18.polygon_contains_crossing`, `C18.contains_translation_invariant`. -/
+section Unfoldings
+variable {α : Type} [Field α] [LinearOrder α] [IsStrictOrderedRing α]
+
+/-- how the polygon-level functions are composed from `Contour.Contains` (definitional: `ContainsEvenOdd` is the parity
+    of the number of containing contours, `Contains` their disjunction); the crossing-number content is
+    `contour_contains_crossing` and `evenodd_crossing` -/
+theorem evenodd_spec (p : Polygon α) (pt : Point α) :
+    (Polygon.containsEvenOdd p pt = true ↔ (p.countP (fun c => Contour.contains c pt)) % 2 = 1) ∧
+    (Polygon.contains p pt = true ↔ ∃ c ∈ p, Contour.contains c pt = true) := by
+  simp [Polygon.containsEvenOdd, Polygon.contains]
+
+/-- "Transform maps every vertex by the matrix": same shape, vertex `i` of contour `j` is the image of the original
+    vertex.  "Without touching the original" is vacuous in a pure model (the operand is a value) and is NOT a theorem:
+    it is checked on the Go side only — the harness compares the operand before and after Transform (also after
+    overwriting the result), and before and after Bounds / Contains / ContainsEvenOdd; `Rect` and `Matrix` operands are
+    Go values passed by copy, so Union/Intersect/Multiply cannot touch them by construction of the language -/
+theorem transform_maps_vertices (p : Polygon α) (m : Matrix α) (j i : Nat) :
+    (Polygon.transform p m).length = p.length ∧
+    ((Polygon.transform p m)[j]?.bind (·[i]?)) = (p[j]?.bind (·[i]?)).map m.transformPoint := by
+  simp only [Polygon.transform, List.length_map, List.getElem?_map, true_and]
+  cases p[j]? <;> simp
+
+/-- `Transform` composes like the matrices: transforming by the identity changes nothing, transforming by `m` and then
+    by `n` is transforming by `m.Multiply(n)` -/
+theorem transform_compose (p : Polygon α) (m n : Matrix α) :
+    Polygon.transform p Matrix.identity = p ∧
+    Polygon.transform (Polygon.transform p m) n = Polygon.transform p (m.multiply n) := by
+  constructor
+  · simp only [Polygon.transform]
+    have : (fun v : Point α => (Matrix.identity : Matrix α).transformPoint v) = id := by
+      funext v; simp [Matrix.identity, Matrix.transformPoint]
+    simp [this]
+  · simp only [Polygon.transform, List.map_map]
+    congr 1; funext c
+    simp only [Function.comp, List.map_map]
+    congr 1; funext v
+    simp only [Matrix.multiply, Matrix.transformPoint, Function.comp, Point.mk.injEq]; constructor <;> ring
+
+/-- a polygon that is `Empty` (no vertex at all) contains nothing, has the zero bounds and is its own transform -/
+theorem empty_polygon (p : Polygon α) (m : Matrix α) (h : Polygon.empty p = true) :
+    Polygon.bounds p = Rect.zero ∧ Polygon.transform p m = p ∧ (∀ c ∈ p, c = []) := by
+  have hall : ∀ c ∈ p, c = [] := by
+    cases p with
+    | nil => simp
+    | cons c cs =>
+      simp only [Polygon.empty, List.all_eq_true, List.isEmpty_iff] at h
+      exact h
+  refine ⟨?_, ?_, hall⟩
+  · cases p with
+    | nil => rfl
+    | cons c cs =>
+      simp only [Polygon.bounds]
+      rw [hall c (List.mem_cons_self ..)]
+      have hcs : ∀ c' ∈ cs, c' = [] := fun c' hc' => hall c' (List.mem_cons_of_mem _ hc')
+      clear hall h
+      induction cs with
+      | nil => rfl
+      | cons d ds ih =>
+        simp only [List.foldl_cons]
+        rw [hcs d (List.mem_cons_self ..)]
+        have : (Contour.bounds ([] : Contour α)).union (Contour.bounds []) = Contour.bounds [] := by
+          simp [Contour.bounds, Rect.union, Rect.zero, Rect.empty]
+        rw [this]
+        exact ih (fun c' hc' => hcs c' (List.mem_cons_of_mem _ hc'))
+  · simp only [Polygon.transform]
+    conv => rhs; rw [← List.map_id p]
+    apply List.map_congr_left
+    intro c hc
+    rw [hall c hc]; rfl
+
+
+end Unfoldings
 end Geom
